@@ -150,6 +150,18 @@ CLAIMS = {
              "function of the object; Parse/Serialize inverse - exercised only by the bounded corpus run), ghost views for bytes and "
              "piece lists, well-framedness as precondition of _decompress_all. from_buffer/segment parsing: bounded only. Trusted: " + TB,
         technique="contract-based deductive verification (loop invariants over stream positions, Skolem frame positions) + bounded corpus/synthetic stand-in"),
+    "C08": dict(
+        category="other", design="DESIGN.md section 7 C08",
+        text="Mixed. Proved (contract-based, real formula.py, any rendering stack): each of the 12 binary operator methods replaces the "
+             "two top entries by first-pushed + glyph + second-pushed with the glyph the property names; negate, percent, empty; string "
+             "literals with every quote doubled; booleans TRUE/FALSE; lists and function calls name(args in pushed order) for arities "
+             "0..4 (bounded arity, any stack below); no IndexError for a stack of sufficient depth; the dispatch table wires each node "
+             "type to the method proved for its glyph (complete syntactic check). 'The text, read with conventional precedence, is the "
+             "stored tree' and number/date/reference literals: bounded stand-in with an independent precedence parser over generated "
+             "trees - it reports one open known finding (number literals >= 1e16), so the level is not 'proof'.",
+        note="Assumes: ghost view of the stack list, popn/push/pop inlined, z3 str.replace_all for str.replace, model.table_name opaque. "
+             "Open known finding F-C08-1 (not repaired: the pinned test fixture expects the defective text). Trusted: " + TB,
+        technique="contract-based deductive verification of the per-node stack transitions + bounded render/parse-back stand-in (mixed)"),
 }
 NA_REASON = "check not built yet (build in progress; see DESIGN.md section 7 for the plan)"
 
